@@ -614,9 +614,17 @@ class unyt_array(np.ndarray):
             if dtype is None:
                 dtype = input_array.dtype
             obj = input_array.view(type=cls, dtype=dtype)
+            if registry is not None and registry is not input_units.registry:
+                # never re-bind the caller's unit object: it may be shared
+                # (e.g. unyt.m or an entry of a registry's unit cache)
+                input_units = Unit(
+                    input_units.expr,
+                    input_units.base_value,
+                    input_units.base_offset,
+                    input_units.dimensions,
+                    registry=registry,
+                )
             obj.units = input_units
-            if registry is not None:
-                obj.units.registry = registry
             obj.name = name
             return obj
         if isinstance(input_array, unyt_array):
